@@ -83,6 +83,22 @@ def contexts(tier):
         "typedef int a ; void y ( void ) { int a ( void ) , b = sizeof ( a ) ; }",
         "typedef int a ; void y ( void ) { int a ( void ) , b = ( a ) ( 1 ) ; }",
         "typedef int a ; void y ( void ) { int ( * a ) ( void ) , b = sizeof ( a ) , y [ sizeof ( a ) ] ; }",
+        # which parameter list belongs to the function being defined (6.9.1p5: the declarator's own, innermost, list)
+        "typedef int a ; void ( * y ( int b ) ) ( int a ) { a * y ; b = 1 ; }",
+        "typedef int a ; int ( * y ( int a ) ) [ 1 ] { a * b ; }",
+        "typedef int a ; int ( * y ( int a ) ) ( int b ) { a * b ; }",
+        "typedef int a ; int * ( y ) ( int a ) { a * b ; } a * b ;",
+        # K&R declaration lists declare in the function's block, not outside it
+        "int y ( b ) int b ; { b = 1 ; } typedef int b ; b * y ;",
+        "typedef int a ; int y ( b ) a * b ; { a * y ; } typedef int b ; b * y ;",
+        # function prototype scope (6.2.1p4): a parameter hides a typedef in the rest of its parameter list
+        "typedef int a ; void y ( int a , int b [ a ] ) ;",
+        "typedef int a ; void y ( int a , int b [ sizeof ( a ) ] ) { a = 1 ; } a * b ;",
+        "typedef int a ; void y ( int a , int ( * b ) ( int y [ a * 1 ] ) ) ; a * b ;",
+        "typedef int a ; void y ( int ( * b ) ( int a ) , a * y ) ; a * b ;",
+        "typedef int a ; void y ( ?K ?N , int y [ sizeof ( a ) ] ) ;",
+        "typedef int a ; void y ( ?K ?N , int b [ sizeof ( a ) ] ) { a * b ; } a * b ;",
+        "typedef int a ; void y ( int ( * b ) ( int a , int y [ sizeof ( a ) ] ) , a * y ) { a * y ; }",
     ]
     for i, p in enumerate(pats):
         out.append((PatCtx(f"history{i}:{p}", [], p, [], cls), 0))
@@ -110,6 +126,19 @@ def main():
         exp = {i: t for i, name, t in ref[2].classified}
         for i in sorted(exp):
             if i in got and got[i] != exp[i]:
+                if i in ref[2].proto_resolved:
+                    # the reference resolved this identifier through a parameter declared earlier in the SAME parameter list
+                    # (function prototype scope, 6.2.1p4).  The property exempts prototype-only parameter names ("never affect it");
+                    # for the parameter list of a function DEFINITION it says "from the end of its declarator".
+                    if any(a < i < b for a, b in ref[2].def_param_ranges):
+                        for v in rec["viol"]:
+                            v["sig"] = "scope:TYPEID-for-object:own-parameter-list-of-definition"
+                            v["what"] = (f"identifier token #{i} '{v['toks'][i][1]}' names a parameter declared earlier in the same parameter list of a function definition, "
+                                         f"but the parser's callback classified it TYPEID (outer typedef); consequence: {v['what']}")
+                    else:
+                        rec["viol"] = []
+                        rec["cls"] = "no-claim:prototype-only-parameter-scope"
+                    break
                 for v in rec["viol"]:
                     toks = v["toks"]
                     before = ",".join(t for t, _ in toks[max(0, i - 2):i])
